@@ -449,10 +449,12 @@ func (d *Dials[T]) updateSourceValue(
 	if stackErr != nil {
 		oldVal := d.View()
 		newVal, _ := newInterface.(*T)
+		verifPoint("mon.submit", "stackErr", len(d.cbch))
 		d.submitEvent(ctx, &watchErrorEvent[T]{
 			err: stackErr, oldConfig: oldVal, newConfig: newVal,
 		})
 		if watchTab.installed != nil {
+			verifPoint("mon.reply", "stackErr")
 			watchTab.installed <- stackErr
 		}
 		return nil
@@ -465,11 +467,13 @@ func (d *Dials[T]) updateSourceValue(
 
 			newVal := newInterface.(*T)
 
+			verifPoint("mon.submit", "verifyErr", len(d.cbch))
 			d.submitEvent(ctx, &watchErrorEvent[T]{
 				err: vfErr, oldConfig: oldVal, newConfig: newVal,
 			})
 
 			if watchTab.installed != nil {
+				verifPoint("mon.reply", "verifyErr")
 				watchTab.installed <- vfErr
 			}
 			return nil
@@ -482,7 +486,9 @@ func (d *Dials[T]) updateSourceValue(
 
 	// We can do a blind-store here because this goroutine (monitor()) has
 	// exclusive ownership of writes to this atomic-value
+	verifPoint("mon.store", oldSerial.s+1, newVers)
 	d.value.Store(&versionedConfig[T]{serial: oldSerial.s + 1, cfg: newVers})
+	verifPoint("mon.events", len(d.updatesChan))
 	select {
 	case d.updatesChan <- newVers:
 	default:
@@ -490,6 +496,7 @@ func (d *Dials[T]) updateSourceValue(
 
 	// If there's an installed channel, poke it.
 	if watchTab.installed != nil {
+		verifPoint("mon.reply", "ok")
 		watchTab.installed <- nil
 	}
 
@@ -621,6 +628,7 @@ func (d *Dials[T]) monitorEnableVerify(ve verifyEnable[T]) bool {
 	vt, serial := d.ViewVersion()
 	if vf, ok := any(vt).(VerifiedConfig); ok {
 		if vfErr := vf.Verify(); vfErr != nil {
+			verifPoint("mon.enableReply", "err")
 			ve.resp <- verifyEnableResp[T]{
 				err: vfErr,
 				v:   nil,
@@ -630,6 +638,7 @@ func (d *Dials[T]) monitorEnableVerify(ve verifyEnable[T]) bool {
 			return false
 		}
 	}
+	verifPoint("mon.enableReply", "ok")
 	ve.resp <- verifyEnableResp[T]{
 		err: nil,
 		v:   vt,
@@ -648,16 +657,20 @@ func (d *Dials[T]) monitor(
 	// cbch has several senders (callback registration and unregistration), so
 	// signal shutdown with monDone rather than closing cbch.
 	defer close(d.monDone)
+	defer verifPoint("mon.exit")
 	skipVerify := d.params.DelayInitialVerification
 	for {
+		verifPoint("mon.top", skipVerify)
 		select {
 		case <-ctx.Done():
 			return
 		case v := <-monCtl:
+			verifPoint("mon.got", "enable")
 			if !skipVerify {
 				// we're not in skipVerify mode, so just send back
 				// a success and continue
 				cfg, serial := d.ViewVersion()
+				verifPoint("mon.enableReply", "noop")
 				v.resp <- verifyEnableResp[T]{
 					err: nil,
 					v:   cfg,
@@ -669,9 +682,11 @@ func (d *Dials[T]) monitor(
 		case watchTab := <-watcherChan:
 			switch v := watchTab.(type) {
 			case *valueUpdate:
+				verifPoint("mon.got", "value", v.source, v.value, v.installed != nil)
 				oldConfig, oldSerial := d.ViewVersion()
 				newConfig := d.updateSourceValue(ctx, t, skipVerify, sourceValues, v)
 				if newConfig != nil {
+					verifPoint("mon.submit", "newConfig", len(d.cbch))
 					d.submitEvent(ctx, &newConfigEvent[T]{
 						oldConfig: oldConfig,
 						newConfig: newConfig,
@@ -681,7 +696,9 @@ func (d *Dials[T]) monitor(
 					})
 				}
 			case *watchErrorReport:
+				verifPoint("mon.got", "error", v.source, v.err)
 				if !(skipVerify && d.params.CallGlobalCallbacksAfterVerificationEnabled) {
+					verifPoint("mon.submit", "sourceErr", len(d.cbch))
 					d.submitEvent(ctx, &watchErrorEvent[T]{
 						err: fmt.Errorf("error reported by source of type %T: %w",
 							v.source, v.err),
@@ -690,6 +707,7 @@ func (d *Dials[T]) monitor(
 					})
 				}
 			case *watcherDone:
+				verifPoint("mon.got", "done", v.source)
 				if !d.markSourceDone(ctx, sourceValues, v) {
 					// if there are no watching sources, just exit.
 					return
